@@ -147,12 +147,21 @@ def run(repo, harnesses, tag='default', timeout=900, jobs=4, playback=False, ext
         cmd += ['--harness', h, '--exact'] if False else ['--harness', h]
     if extra_args:
         cmd += extra_args
+    # own process group, so that a timeout kills cargo-kani *and* its cbmc children (no orphans)
+    import signal
+    proc = subprocess.Popen(cmd, cwd=dst, env=env, stdout=subprocess.PIPE, stderr=subprocess.PIPE, text=True,
+                            start_new_session=True)
     try:
-        p = subprocess.run(cmd, cwd=dst, env=env, capture_output=True, text=True, timeout=timeout)
-        out = p.stdout + '\n' + p.stderr
-        rc = p.returncode
-    except subprocess.TimeoutExpired as e:
-        out = ((e.stdout or b'').decode('utf8', 'replace') if isinstance(e.stdout, bytes) else (e.stdout or '')) + '\nTIMEOUT'
+        so, se = proc.communicate(timeout=timeout)
+        out = so + '\n' + se
+        rc = proc.returncode
+    except subprocess.TimeoutExpired:
+        try:
+            os.killpg(proc.pid, signal.SIGKILL)
+        except OSError:
+            pass
+        so, se = proc.communicate()
+        out = (so or '') + '\n' + (se or '') + '\nTIMEOUT'
         rc = -9
     wall = time.time() - t0
     log_path = os.path.join(SCRATCH_ROOT, 'kani-%s.log' % tag)
